@@ -46,13 +46,33 @@ func c17Gen(tp *simcore.Tape, n int, base time.Time, distinctRTD bool) []c17Samp
 	seen := map[time.Duration]bool{}
 	var out []c17Sample
 	t := base
+	// the lucky-packet histories also see the client's clock stepped backwards between
+	// samples ("the last N samples" are the last N handed in, whatever their timestamps say)
+	backSteps := distinctRTD && tp.Bool(1, 4, "client-steps-back")
+	quietForward := !distinctRTD && tp.Bool(1, 5, "quiet-forward")
+	if quietForward {
+		// a forward path without any noise (every request takes exactly as long) while the
+		// return path jitters: each sample then lies exactly on the learned lower bound
+		jitter = 0
+		if jitter2 == 0 {
+			jitter2 = 1000000
+		}
+	}
 	for i := 0; i < n; i++ {
 		t = t.Add(time.Duration(tp.Range(1, int64(4*time.Second), "gap")))
+		if backSteps && i > 0 && tp.Bool(1, 6, "step-now") {
+			step := []time.Duration{time.Second, time.Minute, time.Hour}[tp.Intn(3, "stepsize")]
+			t = t.Add(-step)
+			theta += step
+		}
 		for try := 0; ; try++ {
 			d1 := time.Duration(minDelay + tp.Range(0, jitter, "d1"))
 			d2 := time.Duration(minDelay + tp.Range(0, jitter2, "d2"))
 			proc := time.Duration(tp.Range(0, 300_000, "proc"))
 			drift := time.Duration(tp.Range(0, 2000, "wander")) // slow wander of the true offset
+			if quietForward {
+				drift = 0
+			}
 			s := c17Sample{t0: t}
 			s.t1 = s.t0.Add(d1 + theta + drift)
 			s.t2 = s.t1.Add(proc)
@@ -82,6 +102,8 @@ type c17Bounds struct {
 	n                float64
 	alo, ahi, l2, h2 float64
 	since            int
+	lo0              float64 // the first lo since the reset
+	loConst          bool    // every lo since the reset equals lo0 (a noise-free forward path)
 }
 
 // observe returns whether the sample lies within the bounds learned so far and whether
@@ -94,6 +116,11 @@ func (m *c17Bounds) observe(s c17Sample) (inBounds, clear bool) {
 		m.n++
 	}
 	m.since++
+	if m.since == 1 {
+		m.lo0, m.loConst = lo, true
+	} else if lo != m.lo0 {
+		m.loConst = false
+	}
 	var nlo, nhi float64
 	vlo, vhi := m.l2-m.alo*m.alo, m.h2-m.ahi*m.ahi
 	if m.n > 2 {
@@ -103,8 +130,15 @@ func (m *c17Bounds) observe(s c17Sample) (inBounds, clear bool) {
 	failLo, failHi := lo < loLim, hi > hiLim
 	inBounds = !failLo && !failHi
 	const margin = 2e-6
-	clear = !math.IsNaN(nlo) && !math.IsNaN(nhi) && math.Abs(lo-loLim) > margin && math.Abs(hi-hiLim) > margin &&
-		math.Abs(m.alo) < 10 && math.Abs(m.ahi) < 10 && (m.n <= 2 || (vlo > 1e-12 && vhi > 1e-12))
+	loClear := !math.IsNaN(nlo) && math.Abs(lo-loLim) > margin && (m.n <= 2 || vlo > 1e-12)
+	if m.loConst {
+		// all forward delays identical: average = the value, variance exactly zero, the lower
+		// bound is the value itself - and a sample on the bound lies within the bounds
+		failLo, loClear = false, true
+		inBounds = !failHi
+	}
+	clear = loClear && !math.IsNaN(nhi) && math.Abs(hi-hiLim) > margin &&
+		math.Abs(m.alo) < 10 && math.Abs(m.ahi) < 10 && (m.n <= 2 || vhi > 1e-12)
 	r := m.n
 	if m.n > 2 && (failLo || failHi) && (m.n > 3 || (failLo && failHi)) {
 		r *= r
@@ -232,6 +266,9 @@ func c17World(t *testing.T, r *simcore.Run) any {
 				}
 				if since > 3 {
 					r.Probe("raw-within-bounds")
+					if bounds.loConst {
+						r.Probe("sample-exactly-on-lower-bound")
+					}
 				}
 			} else if !in && clear && since > 3 {
 				r.Probe("outside-bounds")
